@@ -2,8 +2,10 @@ package main
 
 import (
 	"bytes"
+	"context"
 	"encoding/json"
 	"fmt"
+	"net"
 	"reflect"
 	"regexp"
 	"sort"
@@ -13,7 +15,11 @@ import (
 	"cuelang.org/go/cue"
 	"cuelang.org/go/cue/cuecontext"
 	toml "github.com/pelletier/go-toml"
+	"github.com/vimeo/dials"
 	"github.com/vimeo/dials/ptrify"
+	"github.com/vimeo/dials/sources/static"
+	"github.com/vimeo/dials/sourcewrap"
+	"github.com/vimeo/dials/transform"
 	yaml "gopkg.in/yaml.v2"
 
 	"verifharness/internal/coqfmt"
@@ -26,6 +32,7 @@ type input struct {
 	State uint64 `json:"state"`
 	Depth int    `json:"depth"`
 	Width int    `json:"width"`
+	Wrap  bool   `json:"wrap,omitempty"` // decoders wrapped with the set-slice mangler (as ez does)
 	Fmt   int    `json:"fmt,omitempty"`  // corrupt: which format
 	Mut   uint64 `json:"mut,omitempty"`  // corrupt: PRNG state of the corruption
 }
@@ -40,8 +47,22 @@ var leafTypes = []reflect.Type{
 	reflect.TypeOf(time.Duration(0)), reflect.TypeOf(""),
 }
 
+var wrapMode bool // set per case: set-typed leaves only occur when the decoders are wrapped
+
 func genLeaf(r *coqfmt.Rng) reflect.Type {
-	switch x := r.Intn(20); {
+	tup, _ := rty.TextUTypes()
+	switch x := r.Intn(24); {
+	case x == 20:
+		return tup
+	case x == 21:
+		return reflect.PtrTo(tup)
+	case x == 22:
+		return tIP
+	case x == 23:
+		if wrapMode {
+			return reflect.TypeOf(map[string]struct{}(nil))
+		}
+		return tIP
 	case x < 11:
 		return coqfmt.Pick(r, leafTypes)
 	case x < 13:
@@ -105,6 +126,8 @@ func genType(r *coqfmt.Rng, depth, maxDepth, width int) reflect.Type {
 }
 
 var tDur = reflect.TypeOf(time.Duration(0))
+var tIP = reflect.TypeOf(net.IP(nil))
+var tSet = reflect.TypeOf(map[string]struct{}(nil))
 
 var goodDur = []string{"1h30m", "250ms", "-5s", "0", "1ns", "10h", "100ms5us", "2m0s", "+3us"}
 var strPool = []string{"", "x", "hello world", "a,b", "q\"uote", "back\\slash", "tab\there", "line\nbreak", "é", "true", "123", "[x]", "{y}", "k: v", "# c", "'s'"}
@@ -119,6 +142,26 @@ func genDoc(r *coqfmt.Rng, t reflect.Type, bad *int) *doc {
 		return false
 	}
 	switch {
+	case rty.IsTextU(t):
+		// no ill-typed value is planted here: yaml.v2 and go-toml hand any scalar's text to
+		// UnmarshalText and decode a mapping into the struct's own fields
+		return dS(coqfmt.Pick(r, strPool))
+	case t == tIP:
+		if plant() {
+			// only malformed text: a list of numbers IS a []byte for yaml.v2 and go-toml
+			return coqfmt.Pick(r, []*doc{dS("bogus"), dS("1.2.3"), dS("256.1.1.1"), dS("01.2.3.4"), dS("1.2.3.4.5")})
+		}
+		return dS(fmt.Sprintf("%d.%d.%d.%d", r.Intn(256), r.Intn(256), r.Intn(256), r.Intn(256)))
+	case t == tSet:
+		if plant() {
+			return coqfmt.Pick(r, []*doc{dS("notalist"), dM(kv{"a", dM()}), dL(dL(dS("x")))})
+		}
+		n := r.Intn(4)
+		l := make([]*doc, n)
+		for i := range l {
+			l[i] = dS(coqfmt.Pick(r, []string{"a", "b", "c", "with space", ""}))
+		}
+		return dL(l...)
 	case t == tDur:
 		if plant() {
 			return coqfmt.Pick(r, []*doc{dS("bogus"), dS("5"), dB(true), dL(dI(1)), dS("")})
@@ -501,6 +544,23 @@ func genericParse(f int, text string) (*doc, error, bool) {
 	return d, nil, false
 }
 
+// decodeWith runs decoder f, wrapped with the set-slice mangler as ez does when wrap is set.
+func decodeWith(wrap bool, f int, text string, PT reflect.Type) (v reflect.Value, err error, panicked bool) {
+	defer func() {
+		if r := recover(); r != nil {
+			panicked = true
+			err = fmt.Errorf("%v", r)
+		}
+	}()
+	var dec dials.Decoder = decoders[f]
+	if wrap {
+		dec = sourcewrap.NewTransformingDecoder(dec, &transform.SetSliceMangler{})
+	}
+	src := &static.StringSource{Data: text, Decoder: dec}
+	v, err = src.Value(context.Background(), dials.NewType(PT))
+	return v, err, false
+}
+
 func outcomeTerm(v reflect.Value, err error, panicked bool) string {
 	ok := ""
 	if err == nil && !panicked {
@@ -515,6 +575,7 @@ func run(raw json.RawMessage) driver.Result {
 		panic(err)
 	}
 	r := coqfmt.NewRng(in.State)
+	wrapMode = in.Wrap
 	T := genType(r, 0, in.Depth, in.Width)
 	PT := ptrify.Pointerify(T, reflect.New(T).Elem())
 	bad := 0
@@ -532,13 +593,16 @@ func run(raw json.RawMessage) driver.Result {
 		terms := make([]string, 4)
 		nerr := 0
 		for f := 0; f < 4; f++ {
-			v, err, p := decodeSafe(f, render(f, d), PT)
+			v, err, p := decodeWith(in.Wrap, f, render(f, d), PT)
 			terms[f] = outcomeTerm(v, err, p)
 			if err != nil || p {
 				nerr++
 			}
 		}
 		tags := []string{fmt.Sprintf("keys-%d", min(len(d.kvs), 8))}
+		if in.Wrap {
+			tags = append(tags, "set-slice-wrapped")
+		}
 		if planted > 0 {
 			tags = append(tags, "planted-bad-value")
 		}
@@ -551,7 +615,7 @@ func run(raw json.RawMessage) driver.Result {
 			tags = append(tags, "mixed-outcomes")
 		}
 		return driver.Result{
-			Coq:        fmt.Sprintf("Agree %s %s %s", rty.FieldsTerm(T), d.term(), strings.Join(terms, " ")),
+			Coq:        fmt.Sprintf("Agree %s %s %s %s", coqfmt.Bool(in.Wrap), rty.FieldsTerm(T), d.term(), strings.Join(terms, " ")),
 			Kind:       "agree",
 			Nontrivial: len(d.kvs) >= 2 && docDepth(d) >= 2,
 			Tags:       tags,
@@ -560,7 +624,7 @@ func run(raw json.RawMessage) driver.Result {
 		mr := coqfmt.NewRng(in.Mut)
 		text := corrupt(mr, render(in.Fmt, d))
 		gd, gerr, outside := genericParse(in.Fmt, text)
-		v, err, p := decodeSafe(in.Fmt, text, PT)
+		v, err, p := decodeWith(in.Wrap, in.Fmt, text, PT)
 		var direct []string
 		tags := []string{"corrupt-" + fmtNames[in.Fmt]}
 		if p {
@@ -584,7 +648,7 @@ func run(raw json.RawMessage) driver.Result {
 			tags = append(tags, "dials-ok")
 		}
 		return driver.Result{
-			Coq:        fmt.Sprintf("Corrupt %d %s %s %s", in.Fmt, rty.FieldsTerm(T), gd.term(), outcomeTerm(v, err, p)),
+			Coq:        fmt.Sprintf("Corrupt %d %s %s %s %s", in.Fmt, coqfmt.Bool(in.Wrap), rty.FieldsTerm(T), gd.term(), outcomeTerm(v, err, p)),
 			Kind:       "corrupt",
 			Nontrivial: true,
 			Tags:       tags,
@@ -623,12 +687,13 @@ func gen(r *coqfmt.Rng, n int, tier string) []json.RawMessage {
 	for i := 0; i < n; i++ {
 		st := r.U64()
 		depth, width := r.Intn(3), 2+r.Intn(4)
-		b, _ := json.Marshal(input{K: "agree", State: st, Depth: depth, Width: width})
+		wrap := r.Chance(1, 3)
+		b, _ := json.Marshal(input{K: "agree", State: st, Depth: depth, Width: width, Wrap: wrap})
 		out = append(out, b)
 		// single-token corruptions of the same document, one per format
 		for f := 0; f < 4; f++ {
 			if r.Chance(1, 2) {
-				b, _ := json.Marshal(input{K: "corrupt", State: st, Depth: depth, Width: width, Fmt: f, Mut: r.U64()})
+				b, _ := json.Marshal(input{K: "corrupt", State: st, Depth: depth, Width: width, Wrap: wrap, Fmt: f, Mut: r.U64()})
 				out = append(out, b)
 			}
 		}
